@@ -1140,7 +1140,13 @@ fn path_class(rel: &str, is_dir_hint: Option<bool>) -> &'static str {
             }
         }
         Some(_) => "non-source",
-        None => "folder",
+        None => {
+            if is_dir_hint == Some(false) {
+                "non-source"
+            } else {
+                "folder"
+            }
+        }
     }
 }
 
@@ -1266,7 +1272,9 @@ fn cause_of(runner: &Runner, case: &Case, fired: &Fired) -> String {
                 step_parts.push(sig);
             }
         }
-        if si + 3 >= n && !step_parts.is_empty() {
+        // The comparison is made after every step, so the step on which the rule fires is
+        // the cause; earlier steps only set the scene (they are in the witness).
+        if si + 1 == n && !step_parts.is_empty() {
             parts.push(step_parts.join("+"));
         }
     }
